@@ -127,7 +127,7 @@ def run(ctx):
     ctx.exhaustive = True
     ctx.extra['exhaustive_bound'] = 'domain {0,1,2}: n=1 all sets of <=3 sequences; n=2 all sets of <=%d sequences' % ctx.budget(3, 4)
     # random larger, biased towards reducible families
-    for _ in range(ctx.budget(350, 6000)):
+    for _ in range(ctx.budget(350, 4000)):
         if ctx.expired():
             break
         dom = rng.choice([D, D, D, D, [0, 1], [0, 1, 2, 3]])
@@ -147,6 +147,9 @@ def run(ctx):
                     continue
             idxs = sorted(rng.sample(range(n), rng.randint(0 if rng.random() < 0.05 else 1, min(n, 4))))
             seqs.add(tuple((rng.choice(dom), i) for i in idxs))
+        if len(seqs) > 10 or (len(dom) > 3 and len(seqs) > 8):
+            # Choices.generate is exponential in the number of sequences; keep each case under seconds
+            seqs = set(sorted(seqs)[:8])
         one(ctx, dom, n, list(seqs), pending, keep)
         if len(pending) > 300:
             flush(ctx, pending)
